@@ -4,6 +4,7 @@ CONSTANTS
   Fixes <- Fix_none
   PlanSet <- Plans_all
   LateAfter = FALSE
+  StepSend = FALSE
 INVARIANT TypeOK
 INVARIANT Inv_ServerAlive
 INVARIANT Inv_Others
